@@ -2,6 +2,7 @@ import LicenseExpr.Props.C16
 import LicenseExpr.Props.C17
 import LicenseExpr.Lemmas.Alone
 import LicenseExpr.Lemmas.Spelled
+import LicenseExpr.Lemmas.KwValid
 import LicenseExpr.Model.Api
 /-!
 # C04 — known keys and aliases are recognised whatever the case and spacing
@@ -23,7 +24,8 @@ an alias — is resolved to that license, an operand made of words that occur in
 becomes the unknown license those words spell, and the text parses to the tree of its skeleton. Its
 premises on the table: no stored name of several words contains an operator word or a parenthesis
 (`OpWordFree` — the proviso "no longer known name extends beyond the operand" made a property of the
-table), no name reads as a bare operator (`KwOwned`), and each name belongs to one license
+table), the table is one `Licensing` accepts (`tableRefused = false`; then no name reads as a bare
+operator, `kwOwned_of_accepted`), and each name belongs to one license
 (`OwnedByV`, inside `SegFor`). `C04_in_context_proviso` drops the premise on the table: for any table,
 whenever no occurrence of a stored name in the text reaches across a segment boundary — the proviso
 itself, as a decidable premise on the text.
@@ -140,27 +142,26 @@ theorem C04_alone_validates (c : Cls) (hc : ClsOK c) (T : Table) (hu : namesUniq
     case; every license as a run of words that reads as a stored name of that license — its key or
     any alias, in any letter case, with any amount and kind of whitespace between the words —, or, for
     an unknown license, a run of words none of which occurs in a stored name (`OperandSeg`). Then, for
-    a table whose multi-word names contain no operator word or parenthesis, the text parses to
+    a table that `Licensing` accepts and whose multi-word names contain no operator word or parenthesis, the text parses to
     exactly what the skeleton parses to: every operand is resolved to its license, whatever stands
     around it. -/
-theorem C04_in_context (c : Cls) (hc : ClsOK c) (T : Table) (hop : OpWordFree c T) (hkw : KwOwned c T)
+theorem C04_in_context (c : Cls) (hc : ClsOK c) (T : Table) (hop : OpWordFree c T) (hacc : tableRefused c T = false)
     (ts : List (BP.Tok Atom)) (segs : List (Seg TVal)) (hs : SegsFor c T ts segs) (text : Str)
     (hcov : segPieces segs = wordPieces c text) (e : Expr Atom) (hparse : BP.parse ts = .ok e) :
     parseFull c T false false false text = .ok e :=
-  parse_spelled c hc T hop hkw ts segs hs text hcov e hparse
+  parse_spelled c hc T hop (kwOwned_of_accepted c hc T hacc) ts segs hs text hcov e hparse
 
-/-- **C04 (an operand wherever it stands, any table)**: the same for *every* table in which no name reads as a
-    bare operator — also tables whose multi-word names contain operator words (`GPL 2.0 or later`) —
+/-- **C04 (an operand wherever it stands, any table)**: the same for *every* table `Licensing` accepts — also tables whose multi-word names contain operator words (`GPL 2.0 or later`) —
     under the proviso of the property, stated on the text: no occurrence of a stored name reaches across
     the boundary of a segment, i.e. no longer known name extends beyond an operand (`hwithin`: every
     match of the scan over the text starts and ends inside one segment). -/
-theorem C04_in_context_proviso (c : Cls) (hc : ClsOK c) (T : Table) (hkw : KwOwned c T)
+theorem C04_in_context_proviso (c : Cls) (hc : ClsOK c) (T : Table) (hacc : tableRefused c T = false)
     (ts : List (BP.Tok Atom)) (segs : List (Seg TVal)) (hs : SegsFor c T ts segs) (text : Str)
     (hcov : segPieces segs = wordPieces c text)
     (hwithin : ∀ k ∈ (buildTrie c T).iter c text true, k.val.isSome = true →
       ∃ sg ∈ segs, ∃ p ∈ sg.1, ∃ p' ∈ sg.1, k.s = p.start ∧ k.e = p'.stop)
     (e : Expr Atom) (hparse : BP.parse ts = .ok e) :
     parseFull c T false false false text = .ok e :=
-  parse_spelled_within c hc T hkw ts segs hs text hcov hwithin e hparse
+  parse_spelled_within c hc T (kwOwned_of_accepted c hc T hacc) ts segs hs text hcov hwithin e hparse
 
 end LE
